@@ -177,6 +177,8 @@ def make_scenario(rnd, counts, nues_choices=None, fault=None, opts=None):
     scn = {"cfg": cfg, "ues": ues, "fault": fault or {"kind": "none", "at": -1, "bytes": []}}
     if "det" in opts:
         scn["amfOtherPlmn"] = (opts["det"] + 1) % 3           # the AMF serves a second PLMN: listed in front of the gNB's (1), behind it (2), not at all (0)
+        if "other_plmn" in opts:
+            scn["amfOtherPlmn"] = opts["other_plmn"]           # (fixed by the check where it has too few runs to cycle through the three)
     if opts.get("gid_hex") and bits == 32:
         # four octets that are all hexadecimal digits in ASCII: the identifier is these octets, not the number they spell
         cfg["gnbId"] = [0x31, 0x32, 0x41, 0x66]
